@@ -902,15 +902,50 @@ def gen_set16(rng):
     sep = rng.choice([".", "/"])
     oper = rng.choice(["value", "value", "value", "delete", "null",
                        "create", "check-pass", "check-fail", "unmatched",
-                       "format", "saveto"])
+                       "format", "saveto", "aliasof", "aliasof-new", "tag",
+                       "tag-only", "file-value", "stdin-value"])
     fmt = None
     value = rng.choice(["9", "new v", "2.5", "true", "zeta"])
     check = None
     saveto = None
     must = False
     if oper in ("value", "null", "format", "check-pass", "check-fail",
-                "saveto") and not scalars:
+                "saveto", "aliasof", "aliasof-new", "tag", "tag-only",
+                "file-value", "stdin-value") and not scalars:
         oper = "create"
+    anchored = [(sg, n) for sg, n in scalars if n.get("a")]
+    plain_sc = [(sg, n) for sg, n in scalars if not n.get("a")]
+    if oper == "aliasof" and not (anchored and len(scalars) > 1):
+        oper = "value"
+    if oper == "aliasof-new" and len(plain_sc) < 2:
+        oper = "value"
+    aliasof = None
+    newanchor = None
+    tag = None
+    extra_files = {}
+    value_stdin = None
+    if oper in ("aliasof", "aliasof-new"):
+        src_segs, _n = rng.choice(anchored if oper == "aliasof"
+                                  else plain_sc)
+        others = [sg for sg, _n in scalars if sg != src_segs]
+        segs = rng.choice(others)
+        path = gen_docs.render_path(segs, sep)
+        aliasof = gen_docs.render_path(src_segs, sep)
+        if oper == "aliasof-new" or rng.random() < 0.3:
+            newanchor = rng.choice(["newanc", "N1"])
+    elif oper in ("tag", "tag-only"):
+        segs, _n = rng.choice(scalars)
+        path = gen_docs.render_path(segs, sep)
+        tag = rng.choice(["mytag", "!t"])
+    elif oper in ("file-value", "stdin-value"):
+        segs, _n = rng.choice(scalars)
+        path = gen_docs.render_path(segs, sep)
+        value = rng.choice(["from a file", "two\nlines", "padded\n\n",
+                            "41"])
+        if oper == "file-value":
+            extra_files[W + "value.txt"] = value
+        else:
+            value_stdin = value
     if oper in ("value", "null"):
         segs, _n = rng.choice(scalars)
         path = gen_docs.render_path(segs, sep)
@@ -954,8 +989,20 @@ def gen_set16(rng):
         opts.append("-D")
     elif oper == "null":
         opts.append("-N")
+    elif oper in ("aliasof", "aliasof-new"):
+        opts += ["-A", aliasof]
+        if newanchor:
+            opts += ["-H", newanchor]
+    elif oper == "tag-only":
+        opts += ["-T", tag]
+    elif oper == "file-value":
+        opts += ["-f", W + "value.txt"]
+    elif oper == "stdin-value":
+        opts.append("-i")
     else:
         opts += ["-a", value]
+        if oper == "tag":
+            opts += ["-T", tag]
     if fmt:
         opts += ["-F", fmt]
     if check is not None:
@@ -965,9 +1012,10 @@ def gen_set16(rng):
     if must:
         opts.append("-m")
     return {"tool": "yaml-set", "opts": opts, "doc": text,
-            "fname": W + "doc" + suffix, "files": {}, "oper": oper,
+            "fname": W + "doc" + suffix, "files": extra_files, "oper": oper,
             "path": path, "value": value, "fmt": fmt, "check": check,
-            "saveto": saveto, "must": must}
+            "saveto": saveto, "must": must, "aliasof": aliasof,
+            "newanchor": newanchor, "tag": tag, "value_stdin": value_stdin}
 
 
 def expect_set(scn):
@@ -1002,8 +1050,25 @@ def expect_set(scn):
                 saved.yaml_set_anchor(None)     # a copy of the *value*
             proc.set_value(YAMLPath(scn["saveto"]), saved,
                            value_format=old_format, tag=None)
+        tag = scn.get("tag")
+        if tag and not tag.startswith("!"):
+            tag = "!" + tag
         if oper == "delete":
             proc.delete_gathered_nodes(coords)
+        elif oper in ("aliasof", "aliasof-new"):
+            proc.alias_gathered_nodes(coords, scn["aliasof"],
+                                      anchor_name=scn.get("newanchor"))
+        elif oper == "tag-only":
+            proc.tag_gathered_nodes(coords, tag)
+        elif oper == "tag":
+            proc.set_value(path, scn["value"], value_format="default",
+                           mustexist=must, tag=tag)
+        elif oper == "file-value":
+            proc.set_value(path, scn["value"].rstrip(),
+                           value_format="default", mustexist=must, tag=None)
+        elif oper == "stdin-value":
+            proc.set_value(path, scn["value"], value_format="default",
+                           mustexist=must, tag=None)
         elif oper == "null":
             proc.set_value(path, None, value_format="default",
                            mustexist=must, tag=None)
@@ -1059,7 +1124,11 @@ def judge_set(scn, exp, res, out_text, original_text, channel):
         if as_json:
             want = json.loads(json.dumps(plain(exp["data"])))
         else:
-            want = snapshot.typed_merged(_dump_reload(exp["data"]))
+            ref = _dump_reload(exp["data"])
+            want = snapshot.typed_merged(ref)
+            if scn["oper"] in ("aliasof", "aliasof-new") and \
+                    snapshot.alias_groups(ref) != snapshot.alias_groups(data):
+                out.append("set:alias-structure-differs-from-library-edit")
     except ValueError:
         # the library's own result cannot be serialised and reloaded: there
         # is no reference to compare with (C03's business, not the tool's)
@@ -1085,8 +1154,18 @@ def build_runs(rng, scn, knobs):
     if tool in ("yaml-get", "yaml-set"):
         var = channel_variants(rng, tool, scn["opts"], scn["doc"],
                                scn["fname"], scn["files"], knobs)
-        for chan, rcp in var.items():
-            runs[chan] = (rcp, {})
+        if scn.get("value_stdin") is not None:
+            # standard input carries the new VALUE: the document must come
+            # from the file, and the other deliveries must be refused
+            rcp = var["file"]
+            rcp["stdin"] = scn["value_stdin"]
+            rcp["tty"] = False
+            rcp["stdin_chunks"] = chunks
+            runs["file"] = (rcp, {})
+            runs["both-on-stdin"] = (var["dash"], {})
+        else:
+            for chan, rcp in var.items():
+                runs[chan] = (rcp, {})
     elif tool == "yaml-diff":
         files = {scn["lname"]: scn["lhs"], scn["rname"]: scn["rhs"]}
         runs["file"] = (base_recipe(tool, scn["opts"] + [scn["lname"],
@@ -1173,6 +1252,10 @@ def judge_run(scn, chan, recipe, ctx, res, cache):
     if chan == "tty-nofile":
         if res.exit == 0:
             out.append("%s:no-input-but-exit-0" % tool[5:])
+        return out
+    if chan == "both-on-stdin":
+        if res.exit == 0:
+            out.append("set:document-and-value-both-from-stdin-but-exit-0")
         return out
     if tool == "yaml-get":
         if "get" not in cache:
